@@ -103,7 +103,8 @@ def run(c):
             if not c.validate_traces("EfiVarIoTrace", "EfiVarIoTrace.cfg", ev2):
                 raise vf.FrameworkError("rejection not reproduced")
         c.report(key, "%s %s of %s: FS calls [%s], result %s - not allowed by the contract" % (b.get("api"), b.get("kind"), b.get("path"), shape, e.get("res")),
-                 {"api_begin": b, "fs": fs, "rejected": e, "step_index": b.get("i"), "scenario_dir": scen[owner[i]]["dir"]})
+                 dict({"api_begin": b, "fs": fs, "rejected": e, "step_index": b.get("i"), "scenario_dir": scen[owner[i]]["dir"]},
+                      **c.rp("vario", scen[owner[i]], validate=("EfiVarIoTrace", "EfiVarIoTrace.cfg"), strip=("sc", "panic", "ev"))))
     c.cov["evaluations"] = nsteps
     c.cov["traces_validated_against_impl"] = len(scen)
     c.cov["api_calls"] = nsteps
